@@ -98,6 +98,7 @@ func (v *l2View) eligible() map[string]bool {
 }
 
 type l2Fixture struct {
+	notReproducible string // set when an evaluation did not follow the choice points recorded for the same view
 	ctrls map[string]*layer2Controller // long-lived controller per evaluating node
 	sl    *verifSList
 }
@@ -216,9 +217,24 @@ func (f *l2Fixture) announcers(v *l2View, svcName string, addrs []string, order 
 		if len(orderNode) > 0 && orderNode[0] > 0 && orderNode[0] != i+1 {
 			ord = nil
 		}
-		verifrt.RunWithChoices(ord, []string{"maporder"}, func(*verifrt.Chooser) {
-			r = c.ShouldAnnounce(log.NewNopLogger(), "ns/"+svcName, ips, pool, svc, slices, nodes)
-		})
+		func() {
+			// the recorded order vector was taken from an evaluation of the same view: if it no longer fits, the
+			// evaluation depends on something that is not in the view (time, earlier calls)
+			defer func() {
+				if rec := recover(); rec != nil {
+					if msg := fmt.Sprint(rec); strings.Contains(msg, "replay divergence") {
+						verifrt.SetChooser(nil)
+						f.notReproducible = msg
+						r = c.ShouldAnnounce(log.NewNopLogger(), "ns/"+svcName, ips, pool, svc, slices, nodes)
+						return
+					}
+					panic(rec)
+				}
+			}()
+			verifrt.RunWithChoices(ord, []string{"maporder"}, func(*verifrt.Chooser) {
+				r = c.ShouldAnnounce(log.NewNopLogger(), "ns/"+svcName, ips, pool, svc, slices, nodes)
+			})
+		}()
 		if r == "" {
 			out = append(out, n)
 		}
@@ -248,6 +264,10 @@ func (f *l2Fixture) checkView(res *verifrt.Result, v *l2View) {
 		for _, n := range a {
 			union[n] = true
 		}
+	}
+	if f.notReproducible != "" {
+		res.Violate("C04 the election is not a function of the cluster view (an evaluation of one view did not repeat)", f.notReproducible, v)
+		f.notReproducible = ""
 	}
 	res.Outcome(fmt.Sprintf("eligible=%d announcers=%d", len(E), len(union)))
 	if len(v.MapOrder) > 0 && (len(union) != 1 && len(E) > 0 || len(union) > 0 && len(E) == 0) {
